@@ -3,6 +3,7 @@
 From Coq Require Import List ZArith Reals.
 From Coquelicot Require Import Coquelicot.
 From EPG Require Import Scalar QI State Ops Diff DiffOrder2 CInst Transition Evolution CDeriv CoefT CoefE.
+From EPG Require DiffExact DiffExact2 DiffExact2Nonvac.
 Import ListNotations.
 
 (* (1) symmetry: H[a,b] = H[b,a] for every state of every run and every requested variable list *)
@@ -64,3 +65,70 @@ Theorem C03_R_d2 (rT_re rT_im rL r0 : R) :
 Proof. exact (conj (R_d2_rT_rT_correct rT_re rT_im rL r0) (conj (R_d2_rL_rL_correct rT_re rT_im rL r0) (R_d2_r0_r0_correct rT_re rT_im rL r0))). Qed.
 Print Assumptions C03_P_d2.
 Print Assumptions C03_R_d2.
+
+(* (3) exactness of the second-order bookkeeping (_apply_order2) over programs: for any two commuting
+   derivations dv1, dv2 of the scalar ring, if every instruction meets the first-order chain rule for
+   (dv1,v1) and (dv2,v2) and the second-order chain rule for the pair ([DiffExact2.instr_ok12]: unique
+   order1 keys, non-shift derivative arrays, [coef2_ok], [cross_ok]; shifts without declarations, Wait,
+   PD without reset), then the state carried in sm.order2 under Pair(v1,v2) is dv1 (dv2 (state)) for every
+   phase state k -- together with the two first-order invariants ([DiffExact2.inv12]) *)
+Theorem C03_order2_exact (S : ScalOps) (L : ScalLaws S) (dv1 dv2 : S -> S) :
+  (forall x y, dv1 (x + y)%K = (dv1 x + dv1 y)%K) -> (forall x y, dv1 (x * y)%K = (dv1 x * y + x * dv1 y)%K) ->
+  (forall x y, dv2 (x + y)%K = (dv2 x + dv2 y)%K) -> (forall x y, dv2 (x * y)%K = (dv2 x * y + x * dv2 y)%K) ->
+  (forall x, dv1 (dv2 x) = dv2 (dv1 x)) ->
+  forall (v1 v2 : var) (prog : list (dinstr S)) (n : nat) (ds : dstate S),
+  DiffExact2.prog_ok S dv1 dv2 v1 v2 prog ds -> DiffExact2.inv12 S dv1 dv2 v1 v2 n ds ->
+  DiffExact2.inv12 S dv1 dv2 v1 v2 (DiffExact.run_n S prog n) (drun prog ds).
+Proof. exact (DiffExact2.order2_run S L dv1 dv2). Qed.
+Print Assumptions C03_order2_exact.
+
+(* the same with purely per-instruction (state-independent) hypotheses *)
+Theorem C03_order2_exact_static (S : ScalOps) (L : ScalLaws S) (dv1 dv2 : S -> S) :
+  (forall x y, dv1 (x + y)%K = (dv1 x + dv1 y)%K) -> (forall x y, dv1 (x * y)%K = (dv1 x * y + x * dv1 y)%K) ->
+  (forall x y, dv2 (x + y)%K = (dv2 x + dv2 y)%K) -> (forall x y, dv2 (x * y)%K = (dv2 x * y + x * dv2 y)%K) ->
+  (forall x, dv1 (dv2 x) = dv2 (dv1 x)) ->
+  forall (v1 v2 : var) (prog : list (dinstr S)) (n : nat) (ds : dstate S),
+  List.Forall (DiffExact2.instr_ok12 S dv1 dv2 v1 v2 false) prog -> DiffExact2.inv12 S dv1 dv2 v1 v2 n ds ->
+  DiffExact2.inv12 S dv1 dv2 v1 v2 (DiffExact.run_n S prog n) (drun prog ds).
+Proof. exact (DiffExact2.order2_run_static S L dv1 dv2). Qed.
+Print Assumptions C03_order2_exact_static.
+
+(* Hessian probe after simulate(): both mixed entries for [v1; v2] are dv1 (dv2 signal); a pair nobody
+   carries yields zero exactly when the signal's second derivative vanishes *)
+Theorem C03_hessian_exact (S : ScalOps) (L : ScalLaws S) (dv1 dv2 : S -> S) :
+  (forall x y, dv1 (x + y)%K = (dv1 x + dv1 y)%K) -> (forall x y, dv1 (x * y)%K = (dv1 x * y + x * dv1 y)%K) ->
+  (forall x y, dv2 (x + y)%K = (dv2 x + dv2 y)%K) -> (forall x y, dv2 (x * y)%K = (dv2 x * y + x * dv2 y)%K) ->
+  (forall x, dv1 (dv2 x) = dv2 (dv1 x)) ->
+  forall (v1 v2 : var) (prog : list (dinstr S)) (pd : S),
+  dv1 pd = k0 -> dv2 pd = k0 -> DiffExact2.prog_ok S dv1 dv2 v1 v2 prog (dinit (init pd)) ->
+  nth 1 (nth 0 (hessian (drun prog (dinit (init pd))) [v1; v2]) []) k0
+    = dv1 (dv2 (f0 S (d_main (drun prog (dinit (init pd)))))) /\
+  nth 0 (nth 1 (hessian (drun prog (dinit (init pd))) [v1; v2]) []) k0
+    = dv1 (dv2 (f0 S (d_main (drun prog (dinit (init pd)))))).
+Proof. exact (DiffExact2.hessian_exact S L dv1 dv2). Qed.
+Theorem C03_hessian_exact_diag (S : ScalOps) (L : ScalLaws S) (dv1 dv2 : S -> S) :
+  (forall x y, dv1 (x + y)%K = (dv1 x + dv1 y)%K) -> (forall x y, dv1 (x * y)%K = (dv1 x * y + x * dv1 y)%K) ->
+  (forall x y, dv2 (x + y)%K = (dv2 x + dv2 y)%K) -> (forall x y, dv2 (x * y)%K = (dv2 x * y + x * dv2 y)%K) ->
+  (forall x, dv1 (dv2 x) = dv2 (dv1 x)) ->
+  forall (v : var) (prog : list (dinstr S)) (pd : S),
+  dv1 pd = k0 -> dv2 pd = k0 -> DiffExact2.prog_ok S dv1 dv2 v v prog (dinit (init pd)) ->
+  hessian (drun prog (dinit (init pd))) [v] = [[dv1 (dv2 (f0 S (d_main (drun prog (dinit (init pd))))))]].
+Proof. exact (DiffExact2.hessian_exact_diag S L dv1 dv2). Qed.
+Print Assumptions C03_hessian_exact.
+Print Assumptions C03_hessian_exact_diag.
+
+(* non-vacuity: the hypotheses are satisfiable (double dual numbers over the Gaussian rationals, the two
+   Euler derivations, a five-instruction program with a shift) with a NON-ZERO mixed second-order partial *)
+Example C03_order2_nonvacuous :
+  exists (S : ScalOps) (dv1 dv2 : S -> S) (prog : list (dinstr S)) (pd : S) (v1 v2 : var),
+    ScalLaws S /\
+    (forall x y, dv1 (x + y)%K = (dv1 x + dv1 y)%K) /\ (forall x y, dv1 (x * y)%K = (dv1 x * y + x * dv1 y)%K) /\
+    (forall x y, dv2 (x + y)%K = (dv2 x + dv2 y)%K) /\ (forall x y, dv2 (x * y)%K = (dv2 x * y + x * dv2 y)%K) /\
+    (forall x, dv1 (dv2 x) = dv2 (dv1 x)) /\
+    dv1 pd = k0 /\ dv2 pd = k0 /\
+    List.Forall (DiffExact2.instr_ok12 S dv1 dv2 v1 v2 false) prog /\
+    nth 1 (nth 0 (hessian (drun prog (dinit (init pd))) [v1; v2]) []) k0 <> k0 /\
+    nth 1 (nth 0 (hessian (drun prog (dinit (init pd))) [v1; v2]) []) k0 =
+      dv1 (dv2 (f0 S (d_main (drun prog (dinit (init pd)))))).
+Proof. exact DiffExact2Nonvac.nv2_witness. Qed.
+Print Assumptions C03_order2_nonvacuous.
